@@ -90,6 +90,7 @@ fn phase1(
     rec: Value,
     map: &mut HashMap<[u8; 67], Board>,
     alts: &mut HashMap<[u8; 67], Vec<Board>>,
+    built: &mut HashSet<[u8; 67]>,
     hmap: &mut HashMap<u64, [u8; 67]>,
     rep: &mut Report,
     dirty: &Board,
@@ -106,8 +107,12 @@ fn phase1(
     rep.count("records", 1);
     let (board, incremental) = match map.get(&key) {
         Some(b) => {
-            rep.count("states_reached_incrementally", 1);
-            (*b, true)
+            // (a state built from the spec's text stays "not reached by moves" when its record comes again in another set)
+            let inc = !built.contains(&key);
+            if inc {
+                rep.count("states_reached_incrementally", 1);
+            }
+            (*b, inc)
         }
         None => {
             // a root, or a state whose en-passant don't-care the library resolved the other way
@@ -144,6 +149,7 @@ fn phase1(
                 return vec![];
             }
             map.insert(key, b);
+            built.insert(key);
             (b, false)
         }
     };
@@ -322,6 +328,25 @@ fn phase1(
                         rep.violation("C03", "successor_not_constructible", json!({"fen": fen, "move": [f, t, p], "successor": ex.describe()}));
                     }
                 }
+            }
+        }
+        if has(cfg, "C06") && pn == ex && ep_ok && (t as i32 - f as i32).abs() == 16 && (sp.sq[f as usize] == b'P' || sp.sq[f as usize] == b'p') {
+            // after a double push a standard writer names the square passed over, whoever can or cannot capture there.  That text
+            // must be read as THE POSITION JUST REACHED: whatever the move maker decided about recording the square, the
+            // reader has to decide the same (equality includes the derived state and the hash)
+            let mut stdp = ex;
+            stdp.ep = ((f as i32 + t as i32) / 2) as i8;
+            let std = format!("{} 0 1", stdp.describe());
+            rep.count("double_push_edges_std_text_parsed", 1);
+            match Board::from_str(&std) {
+                Ok(x) => {
+                    if x != n1 {
+                        rep.violation("C06", "standard_fen_parse_not_equal_to_reached_board", json!({"fen": fen, "move": [f, t, p], "std": std,
+                            "reached": pn.describe(), "parsed": proj(&x).describe(),
+                            "hash": [n1.get_hash().to_string(), x.get_hash().to_string()]}));
+                    }
+                }
+                Err(e) => rep.violation("C06", "standard_fen_rejected", json!({"std": std, "error": format!("{:?}", e)})),
             }
         }
         if has(cfg, "C06") {
@@ -563,6 +588,23 @@ fn phase2(cfg: &Cfg, it: &Item, idx: u64, rep: &mut Report) {
         let len = MoveGen::new_legal(b).len();
         if len != spec.len() {
             rep.violation("C01", "fresh_len_wrong", json!({"fen": fen, "len": len, "expected": spec.len()}));
+        }
+        // the public perft helper (the piecewise one is test-only) (beyond the listed properties: a divergence is a NOTE, not a verdict): depth 1 is the
+        // number of legal moves; depth 2 (sampled) is the sum of the successors' move counts
+        {
+            let p1 = MoveGen::movegen_perft_test(b, 1);
+            rep.count("perft_calls", 1);
+            if p1 != spec.len() {
+                rep.violation("SPEC", "perft_depth_1_is_not_the_number_of_legal_moves", json!({"fen": fen, "expected": spec.len(), "perft": p1}));
+            }
+            if idx % 16 == 3 {
+                let sum: usize = listed.iter().map(|m| MoveGen::new_legal(&b.make_move_new(*m)).len()).sum();
+                let p2 = MoveGen::movegen_perft_test(b, 2);
+                rep.count("perft_calls", 1);
+                if p2 != sum {
+                    rep.violation("SPEC", "perft_depth_2_is_not_the_sum_over_successors", json!({"fen": fen, "expected": sum, "perft": p2}));
+                }
+            }
         }
         #[allow(deprecated)]
         {
@@ -996,7 +1038,9 @@ fn symmetric(
     rep: &mut Report,
 ) {
     let fen = rec["fen"].as_str().unwrap();
-    let ib = match Board::try_from(&pos_to_builder(image)) {
+    // the image is built independently through the builder; every other one names the en-passant file before the side to move
+    let ep_first = fen.len() % 2 == 1;
+    let ib = match Board::try_from(&(if ep_first { pos_to_builder_ep_first(image) } else { pos_to_builder(image) })) {
         Ok(x) => x,
         Err(_) => {
             rep.violation("C17", &format!("{}_image_rejected", which), json!({"fen": fen, "image": image.describe()}));
@@ -1295,6 +1339,7 @@ fn main() {
     }
     let mut map: HashMap<[u8; 67], Board> = HashMap::new();
     let mut alts: HashMap<[u8; 67], Vec<Board>> = HashMap::new();
+    let mut built: HashSet<[u8; 67]> = HashSet::new();
     let mut hmap: HashMap<u64, [u8; 67]> = HashMap::new();
     let mut rep = Report::new();
     if let Some(r0) = rep_init.take() {
@@ -1371,7 +1416,7 @@ fn main() {
         if hmap.len() >= 4 * cfg.mapcap {
             hmap.clear();
         }
-        for it in phase1(&cfg, rec, &mut map, &mut alts, &mut hmap, &mut rep, &dirty) {
+        for it in phase1(&cfg, rec, &mut map, &mut alts, &mut built, &mut hmap, &mut rep, &dirty) {
             batch.push(it);
         }
         idx += 1;
